@@ -1,6 +1,130 @@
 import TantivyModel.Driver.Proto
+import TantivyModel.Model.TopN
+import TantivyModel.Model.Wand
+/-!
+Line protocol of the C06 model. Keys travel as integers (the harness maps real keys to ranks
+that preserve the comparator's order), addresses as naturals.
+
+* `topn <K> <order> <sel> <keys> <addrs>` — `TopNComputer`: pushes `(key_i, addr_i)` in the given
+  order; answer `k@a,…|t0,t1,…|panic` (sorted vec, threshold after every push, panic flag).
+  `order`: `desc` (NaturalComparator) | `asc` (ReverseComparator); `sel`: `sorted` | `reversed`.
+* `topk <K> <O> <order> <keys> <addrs>` — the specification.
+* `search <K> <O> <order> <sel> <keys> <addrs> <segment lengths>` — per-segment collection,
+  `merge_top_k`, offset (generic sort key path).
+* `scoresearch <K> <O> <keys> <addrs> <segment lengths>` — per-segment `TopNHeap` + merge.
+* `wand1 <policy> <arg> <initial> <blocks>` — `block_wand_single_scorer` on one term's postings:
+  blocks `bm:doc@score,doc@score;bm:…` (scores, bounds and thresholds as order-preserving
+  naturals), callback policy `kth <K>` | `stair 0` | `const <θ>`; answer: the documents offered
+  to the callback, `|`, the final threshold.
+-/
 namespace TantivyModel.Driver.C06
-/-- stub: the model for C06 is not built yet -/
+open TantivyModel TantivyModel.Proto TantivyModel.TopN
+
+def gtOf : String → Option (Int → Int → Bool)
+  | "desc" => some (fun a b => decide (b < a))
+  | "asc" => some (fun a b => decide (a < b))
+  | _ => none
+
+def selOf (gt : Int → Int → Bool) (K : Nat) : String → Option (List (Entry Int) → List (Entry Int))
+  | "sorted" => some (selSorted gt)
+  | "reversed" => some (selReversed gt K)
+  | _ => none
+
+def entries (keys : List Int) (addrs : List Nat) : Option (List (Entry Int)) :=
+  if keys.length = addrs.length then some (List.zipWith (fun k a => ⟨k, a⟩) keys addrs) else none
+
+def showEntries (l : List (Entry Int)) : String :=
+  if l.isEmpty then "-" else ",".intercalate (l.map fun e => s!"{e.key}@{e.addr}")
+
+def showThr : Option Int → String
+  | none => "n"
+  | some t => toString t
+
+def splitSegs : List (Entry Int) → List Nat → Option (List (List (Entry Int)))
+  | [], [] => some []
+  | _ :: _, [] => none
+  | l, n :: ns =>
+    if n ≤ l.length then (splitSegs (l.drop n) ns).map (fun r => l.take n :: r) else none
+
+/-- per-segment `TopNHeap`, fruits in heap (here: sorted) order, then `merge_top_k` -/
+def scoreSearch (gt : Int → Int → Bool) (sel : List (Entry Int) → List (Entry Int)) (K O : Nat)
+    (segs : List (List (Entry Int))) : List (Entry Int) :=
+  mergeTopK gt sel K O (segs.map fun d => (d.foldl (heapPush gt) (Heap.new (O + K))).heap)
+
+/-- callback policies of the correspondence run (thresholds never decrease) -/
+structure CbState where
+  best : List Nat := []
+  θ : Nat
+  calls : List Nat := []
+
+def cbOf (policy : String) (arg : Nat) (s : CbState) (d sc : Nat) : CbState × Nat :=
+  let θ' := match policy with
+    | "kth" =>
+      let best := (TopN.isort (fun a b => decide (b ≤ a)) (sc :: s.best)).take arg
+      if best.length = arg then Nat.max s.θ (best.getLast?.getD s.θ) else s.θ
+    | "stair" => Nat.max s.θ sc
+    | _ => Nat.max s.θ arg
+  let best := if policy == "kth" then (TopN.isort (fun a b => decide (b ≤ a)) (sc :: s.best)).take arg else s.best
+  ({ best := best, θ := θ', calls := s.calls ++ [d] }, θ')
+
+def parseBlock (s : String) : Option (Wand.Block Nat) :=
+  match s.splitOn ":" with
+  | [bm, docs] =>
+    match bm.toNat?, (if docs == "" then some [] else (docs.splitOn ",").mapM fun e =>
+        match e.splitOn "@" with
+        | [d, sc] => match d.toNat?, sc.toNat? with
+          | some d, some sc => some (d, sc)
+          | _, _ => none
+        | _ => none) with
+    | some bm, some ds => some { docs := ds, blockMax := bm }
+    | _, _ => none
+  | _ => none
+
 def handle : List String → String
+  | ["wand1", policy, arg, initial, blocks] =>
+    match arg.toNat?, initial.toNat?, (if blocks == "-" then some [] else (blocks.splitOn ";").mapM parseBlock) with
+    | some arg, some θ0, some bs =>
+      if policy == "kth" ∨ policy == "stair" ∨ policy == "const" then
+        let gt : Nat → Nat → Bool := fun a b => decide (b < a)
+        let (st, θ) := Wand.wandSingle gt (cbOf policy arg) ({ θ := θ0 }, θ0) bs
+        showNatList st.calls ++ "|" ++ toString θ
+      else "bad-op"
+    | _, _, _ => "bad-op"
+  | ["topn", k, order, sel, keys, addrs] =>
+    match k.toNat?, gtOf order, intList keys, natList addrs with
+    | some K, some gt, some ks, some as =>
+      match selOf gt K sel, entries ks as with
+      | some sel, some es =>
+        let step := fun (st : Computer Int × List String) e =>
+          let c := push gt sel st.1 e
+          (c, showThr c.threshold :: st.2)
+        let (c, trace) := es.foldl step (Computer.new K, [])
+        let vec := intoSortedVec gt sel c
+        showEntries vec ++ "|" ++ (if trace.isEmpty then "-" else ",".intercalate trace.reverse)
+          ++ "|" ++ showBool c.panicked
+      | _, _ => "bad-op"
+    | _, _, _, _ => "bad-op"
+  | ["topk", k, o, order, keys, addrs] =>
+    match k.toNat?, o.toNat?, gtOf order, intList keys, natList addrs with
+    | some K, some O, some gt, some ks, some as =>
+      match entries ks as with
+      | some es => showEntries (topK (le gt) K O es)
+      | none => "bad-op"
+    | _, _, _, _, _ => "bad-op"
+  | ["search", k, o, order, sel, keys, addrs, lens] =>
+    match k.toNat?, o.toNat?, gtOf order, intList keys, natList addrs, natList lens with
+    | some K, some O, some gt, some ks, some as, some ls =>
+      match selOf gt (O + K) sel, (entries ks as).bind (splitSegs · ls) with
+      | some sel, some segs => showEntries (search gt sel K O segs)
+      | _, _ => "bad-op"
+    | _, _, _, _, _, _ => "bad-op"
+  | ["scoresearch", k, o, sel, keys, addrs, lens] =>
+    match k.toNat?, o.toNat?, gtOf "desc", intList keys, natList addrs, natList lens with
+    | some K, some O, some gt, some ks, some as, some ls =>
+      match selOf gt (O + K) sel, (entries ks as).bind (splitSegs · ls) with
+      | some sel, some segs => showEntries (scoreSearch gt sel K O segs)
+      | _, _ => "bad-op"
+    | _, _, _, _, _, _ => "bad-op"
   | _ => "bad-op"
+
 end TantivyModel.Driver.C06
